@@ -40,4 +40,86 @@ theorem C09_eq_det_lib (pick₁ : Pick σ σ) (pick₂ : Pick σ σ) (A B : AV.N
     cases v <;> cases b <;> simp_all
   rw [hv, hb, hvb]
 
+/-- Generic form: `A == B` equals `DA == DB` for ANY two valid DFAs (over one state-name type)
+that have the alphabets and the languages of `A` and `B`.  Every option combination of
+`DFA.from_nfa` below is an instance. -/
+theorem eq_det_of {τ : Type} [DecidableEq τ] (pick₁ : Pick σ σ) (pick₂ : Pick σ σ)
+    (A B : AV.NFA σ α) (DA DB : AV.DFA τ α)
+    (hA : A.validate = .ok ()) (hB : B.validate = .ok ()) (hs : sameSyms A.syms B.syms = true)
+    (hvA : DA.validate = .ok ()) (hvB : DB.validate = .ok ())
+    (hsA : DA.syms = A.syms) (hsB : DB.syms = B.syms)
+    (hlA : ∀ w, DA.accepts w = A.accepts w) (hlB : ∀ w, DB.accepts w = B.accepts w) :
+    eqOp pick₁ pick₂ A B = DA.eqv DB := by
+  obtain ⟨v, hv, _, hiff⟩ := C09_eq_iff pick₁ pick₂ A B hA hB hs
+  have hsy : DA.symsEq DB = true := by
+    simpa [DFA.symsEq, sameSyms, hsA, hsB] using hs
+  obtain ⟨b, hb, hbiff⟩ := DFA.eqv_spec DA DB hvA hvB hsy
+  have : v = b := by
+    have : v = true ↔ b = true := by
+      rw [hiff, hbiff]
+      constructor
+      · intro h w; rw [hlA, hlB]; exact h w
+      · intro h w; rw [← hlA, ← hlB]; exact h w
+    cases v <;> cases b <;> simp_all
+  rw [hv, hb, this]
+
+theorem toDFAMin_syms (A : AV.NFA σ α) (pa : List Nat → Nat) : (A.toDFAMin pa).syms = A.syms := by
+  unfold NFA.toDFAMin; simp only [DFA.minifyCore_syms]; simp [NFA.toDFA, DFA.expand]
+
+theorem toDFAMinRenum_syms (A : AV.NFA σ α) (pa : List Nat → Nat) :
+    (A.toDFAMinRenum pa).syms = A.syms := by
+  unfold NFA.toDFAMinRenum; simp only [DFA.minifyCore_syms]; simp [NFA.toDFA, DFA.expand, DFA.renumber]
+
+/-- **Same as comparing the determinisations, `minify=True, retain_names=True`.**  `A == B`
+returns exactly what `DFA.from_nfa(A, retain_names=True) == DFA.from_nfa(B, retain_names=True)`
+returns: each side is determinised AND minimised (for every pop order `pa`, `pb` of the two
+Hopcroft loops), and the results are compared by `DFA.__eq__`. -/
+theorem C09_eq_det_lib_default (pick₁ pick₂ : Pick σ σ) (pa pb : List Nat → Nat) (A B : AV.NFA σ α)
+    (hA : A.validate = .ok ()) (hB : B.validate = .ok ()) (pA : A.PyShape) (pB : B.PyShape)
+    (hs : sameSyms A.syms B.syms = true) :
+    eqOp pick₁ pick₂ A B = (A.toDFAMin pa).eqv (B.toDFAMin pb) := by
+  obtain ⟨hvA, hlA⟩ := AV.Props.C07.C07_from_nfa_min A hA pA pa
+  obtain ⟨hvB, hlB⟩ := AV.Props.C07.C07_from_nfa_min B hB pB pb
+  exact eq_det_of pick₁ pick₂ A B _ _ hA hB hs hvA hvB (toDFAMin_syms A pa) (toDFAMin_syms B pb)
+    hlA hlB
+
+/-- **Same as comparing the determinisations — the literal default call.**
+`DFA.from_nfa(A) == DFA.from_nfa(B)` with the library's default options
+(`retain_names=False, minify=True`: subset construction, renumbering by BFS discovery index,
+`_minify` on the renumbered table — `NFA.toDFAMinRenum`, C07) returns exactly what `A == B`
+returns, for every union–find representative choice and every pop order of the two
+Hopcroft loops. -/
+theorem C09_eq_det_lib_default_renumbered (pick₁ pick₂ : Pick σ σ) (pa pb : List Nat → Nat)
+    (A B : AV.NFA σ α)
+    (hA : A.validate = .ok ()) (hB : B.validate = .ok ()) (pA : A.PyShape) (pB : B.PyShape)
+    (hs : sameSyms A.syms B.syms = true) :
+    eqOp pick₁ pick₂ A B = (A.toDFAMinRenum pa).eqv (B.toDFAMinRenum pb) := by
+  obtain ⟨hvA, hlA⟩ := AV.Props.C07.C07_from_nfa_min_renumbered A hA pA pa
+  obtain ⟨hvB, hlB⟩ := AV.Props.C07.C07_from_nfa_min_renumbered B hB pB pb
+  exact eq_det_of pick₁ pick₂ A B _ _ hA hB hs hvA hvB (toDFAMinRenum_syms A pa)
+    (toDFAMinRenum_syms B pb) hlA hlB
+
+/-- … and with `retain_names=False, minify=False` (renumbered subset DFAs). -/
+theorem C09_eq_det_lib_renumbered (pick₁ pick₂ : Pick σ σ) (A B : AV.NFA σ α)
+    (hA : A.validate = .ok ()) (hB : B.validate = .ok ()) (pA : A.PyShape) (pB : B.PyShape)
+    (hs : sameSyms A.syms B.syms = true) :
+    eqOp pick₁ pick₂ A B = A.toDFA.renumber.eqv B.toDFA.renumber := by
+  obtain ⟨hvA, hlA⟩ := AV.Props.C07.C07_from_nfa_renumbered A hA pA
+  obtain ⟨hvB, hlB⟩ := AV.Props.C07.C07_from_nfa_renumbered B hB pB
+  exact eq_det_of pick₁ pick₂ A B _ _ hA hB hs hvA hvB
+    (by simp [NFA.toDFA, DFA.expand, DFA.renumber]) (by simp [NFA.toDFA, DFA.expand, DFA.renumber])
+    hlA hlB
+
+/-! ### non-vacuity: the examples of Props/C09.lean through the default call -/
+
+theorem exA_pyShape : exA.PyShape := ⟨by decide, by decide, by decide, by decide, by decide, by decide⟩
+theorem exB_pyShape : exB.PyShape := ⟨by decide, by decide, by decide, by decide, by decide, by decide⟩
+theorem exC_pyShape : exC.PyShape := ⟨by decide, by decide, by decide, by decide, by decide, by decide⟩
+
+example : (exA.toDFAMinRenum).eqv (exB.toDFAMinRenum) = some true ∧
+    (exA.toDFAMinRenum).eqv (exC.toDFAMinRenum) = some false := by decide
+example : eqOp exPick exPick exA exB = (exA.toDFAMinRenum).eqv (exB.toDFAMinRenum) :=
+  C09_eq_det_lib_default_renumbered _ _ _ _ exA exB (by decide) (by decide) exA_pyShape exB_pyShape
+    (by decide)
+
 end AV.Props.C09
